@@ -92,4 +92,28 @@ example : Conv.oobWrites (Conv.itoa (-12345) 3).2 3 = [] ∧ Conv.oobWrites (Con
 /-- non-vacuity of the observer: a store one past a 2-byte buffer IS reported by `oobWrites` -/
 example : Conv.oobWrites ((Conv.Mem.init 2).set (Conv.pad + 2) 0) 2 = [Conv.pad + 2] := by decide
 
+/-- Mechanism = specification: when the decimal text of `v` plus its NUL fits (`length < max`), the
+    buffer left by `iwitoa` (digit loop least-significant-first, in-place reversal, NUL) holds exactly
+    the decimal text of `v` and the return value is its length. (`INT64_MIN` goes through `snprintf`
+    in the C code and is excluded here.) -/
+theorem itoa_refines_spec (v : Int) (max : Nat) (lo : -2 ^ 63 < v)
+    (hlen : (Conv.itoaSpec v).length < max) :
+    Conv.cstr (Conv.itoa v max).2 = Conv.itoaSpec v ∧ (Conv.itoa v max).1 = (Conv.itoaSpec v).length :=
+  Conv.itoa_spec v max lo hlen
+
+/-- Round trip through the mechanism: `iwatoi` applied to the buffer that `iwitoa` filled returns `v`,
+    for every 64-bit `v > INT64_MIN` and every buffer in which the text fits. -/
+theorem atoi_itoa (v : Int) (max : Nat) (lo : -2 ^ 63 < v) (hi : v < 2 ^ 63)
+    (hlen : (Conv.itoaSpec v).length < max) :
+    Conv.wrap64 (Conv.atoi (Conv.cstr (Conv.itoa v max).2)) = v := by
+  rw [(itoa_refines_spec v max lo hlen).1]
+  exact atoi_itoaSpec_wrap v (by omega) hi
+
+/-- non-vacuity: "-12345" needs 7 bytes -/
+example : Conv.cstr (Conv.itoa (-12345) 7).2 = [45, 49, 50, 51, 52, 53] ∧ (Conv.itoa (-12345) 7).1 = 6 := by
+  have h : Conv.itoaSpec (-12345) = [45, 49, 50, 51, 52, 53] := by
+    simp [Conv.itoaSpec, Conv.digits]
+  have := itoa_refines_spec (-12345) 7 (by decide) (by rw [h]; decide)
+  rw [h] at this; exact this
+
 end IwModel.C19
